@@ -27,8 +27,11 @@ def run_one(item):
         man = json.load(open(os.path.join(VERIF, "MANIFEST.json")))
         env = dict(os.environ, VERIF_REPO=d, VERIF_EVIDENCE_DIR=d + "/ev")
         out = {}
+        only = [x for x in os.environ.get("BENIGN_CHECKS", "").split(",") if x]
         for c in man["checks"]:
             pid = c["property_id"]
+            if only and pid not in only:
+                continue
             rr = subprocess.run([os.path.join(VERIF, "check"), pid], cwd=VERIF, env=env, capture_output=True, text=True)
             if rr.returncode != 0:
                 rules = []
@@ -63,7 +66,7 @@ def main():
         bad = {k: v for k, v in r.items() if isinstance(v, dict) and v.get("exit")}
         alarms += sum(1 for v in bad.values() if v["exit"] == 1)
         print("%-10s %s" % (n, "clean" if not bad else ", ".join("%s exit=%d (%s)" % (k, v["exit"], "/".join(v["rules"][:2])) for k, v in sorted(bad.items()))))
-    if len(sys.argv) == 1:
+    if len(sys.argv) == 1 and not os.environ.get("BENIGN_CHECKS"):
         json.dump(res, open(os.path.join(base, "MATRIX.json"), "w"), indent=1, sort_keys=True)
     print("%d refactorings, %d false alarm(s)" % (len(res), alarms))
     return 1 if alarms else 0
